@@ -268,6 +268,67 @@ Print Assumptions row_partition_roundtrip.
 Print Assumptions col_partition_roundtrip.
 
 (* ================================================================== *)
+(* The comparison tolerance itself (Model/Allclose.v): torch.allclose on one pair of scalars with torch's defaults,
+   |input - other| <= atol + rtol*|other| over the rationals, rtol = 1e-5, atol = 1e-8.  __eq__ calls it as
+   allclose(self_feat, other_feat, equal_nan=True) on features and allclose(other.y, self.y) on targets; missing
+   entries are handled by pclose (FrameSpec), finite ones by this function. *)
+From Coq Require Import QArith Qabs.
+From PF Require Import Model.Allclose Proofs.AllcloseProofs.
+Close Scope Q_scope.
+
+Theorem allclose_spec : forall a b : Q,
+  allclose_q a b = true <-> (Qabs (a - b) <= allclose_atol + allclose_rtol * Qabs b)%Q.
+Proof. exact allclose_q_spec. Qed.
+Print Assumptions allclose_spec.
+
+(* exactly AT the tolerance the pair is close, any amount beyond it is not (both signs of the difference) *)
+Theorem allclose_boundary : forall b d : Q, (0 <= d)%Q ->
+  (allclose_q (b + d) b = true <-> (d <= allclose_atol + allclose_rtol * Qabs b)%Q)
+  /\ (allclose_q (b - d) b = true <-> (d <= allclose_atol + allclose_rtol * Qabs b)%Q).
+Proof. intros b d H. split; [exact (allclose_q_boundary b d H)|exact (allclose_q_boundary_neg b d H)]. Qed.
+Print Assumptions allclose_boundary.
+
+(* the tolerance scales with the SECOND operand only: the relation is not symmetric *)
+Example allclose_asymmetric :
+  allclose_q (10000100001 # 10000000)%Q 1000%Q = false /\ allclose_q 1000%Q (10000100001 # 10000000)%Q = true.
+Proof. vm_compute. split; reflexivity. Qed.
+
+(* On the harness grid (scalars k/8 with |x| < 1000, shipped as the integer 8x) the tolerance separates exactly the
+   equal values: this is why the correspondence may compare grid scalars, and why every grid perturbation (>= 1/8)
+   is 'beyond tolerance' -- now a theorem about torch's formula instead of an assumption of the harness. *)
+Theorem grid_tolerance_is_equality : forall z1 z2 : Z, (Z.abs z2 < 8000)%Z -> close_grid z1 z2 = Z.eqb z1 z2.
+Proof. exact close_grid_eqb. Qed.
+Print Assumptions grid_tolerance_is_equality.
+
+Theorem grid_difference_detected : forall z1 z2 : Z,
+  z1 <> z2 -> (1000 * Z.abs z2 < 100000000 * Z.abs (z1 - z2) - 8)%Z -> close_grid z1 z2 = false.
+Proof. exact close_grid_detects. Qed.
+Print Assumptions grid_difference_detected.
+
+(* the perturbation theorem against torch's own tolerance: two different grid values in one cell (the right operand's
+   below 1000 in absolute value), or a missing entry against a value, make the frames unequal *)
+Theorem single_cell_perturbation_detected_allclose :
+  forall n n' vs vs' nm nm' yy yy' ov ov' s v v' key m m' i j k,
+    frame_wf n vs yy ov -> frame_wf n' vs' yy' ov' ->
+    NoDup (map fst vs') -> (forall s, In s (map fst vs) -> In s (map fst vs')) ->
+    In (s, v) vs -> In (s, v') vs' ->
+    view_comp key v = Some m -> view_comp key v' = Some m' ->
+    i < length m -> j < length (nth i m []) -> k < length (nth j (nth i m []) []) ->
+    match scalar_at m i j k, scalar_at m' i j k with
+    | Some u, Some w => u <> w /\ (Z.abs w < 8000)%Z
+    | None, None => False
+    | _, _ => True
+    end ->
+    tf_eq close_grid (frame_of vs nm yy ov) (frame_of vs' nm' yy' ov') = Some false.
+Proof.
+  intros n n' vs vs' nm nm' yy yy' ov ov' s v v' key m m' i j k Hw Hw' Hnd Hk Hin Hin' Ec Ec' Hi Hj Hkk Hd.
+  apply (cell_perturbation_detected_proof close_grid n n' vs vs' nm nm' yy yy' ov ov' s v v' key m m' i j k); try assumption.
+  destruct (scalar_at m i j k) as [u|], (scalar_at m' i j k) as [w|]; cbn [pclose]; try reflexivity; [|contradiction].
+  destruct Hd as [Hne Hb]. rewrite (close_grid_eqb u w Hb). apply Z.eqb_neq. exact Hne.
+Qed.
+Print Assumptions single_cell_perturbation_detected_allclose.
+
+(* ================================================================== *)
 (* Inputs unchanged, as a theorem over a store model (Model/FrameStore.v): _cat_col builds the result's name lists
    with defaultdict(list) + list.extend -- the only in-place writes of torch_frame.cat.  With the parts' name lists as
    heap objects (parts = dicts of ADDRESSES into the heap h): every write goes to a list allocated by the call, every
@@ -337,6 +398,34 @@ Proof.
 Qed.
 Print Assumptions col_partition_roundtrip_model.
 
+(* and the partition round trips hold for torch's tolerance (reflexive), on the model of Model/RaggedCat.v *)
+Theorem row_partition_roundtrip_allclose : forall n vs nm yy ov poss,
+  frame_wf n vs yy ov -> names_ok vs nm -> poss <> [] -> concat poss = seq 0 n ->
+  match yy with Some v => Forall (fun p => p <> None) v | None => True end ->
+  exists F', tf_cat mnt_cat_run met_cat_run (map (fun pos => sel_frame pos vs nm yy ov) poss) 0 = Some F'
+             /\ tf_eq close_grid F' (frame_of vs nm yy ov) = Some true
+             /\ tf_eq close_grid (frame_of vs nm yy ov) F' = Some true.
+Proof. exact (row_partition_roundtrip_model close_grid close_grid_refl). Qed.
+Print Assumptions row_partition_roundtrip_allclose.
+
+Theorem col_partition_roundtrip_allclose : forall n vs nm yy ov k cut jy pov,
+  frame_wf n vs yy ov -> names_ok vs nm -> NoDup (flat_map snd nm) ->
+  jy < k ->
+  (forall s v, In (s, v) vs -> cut 0 s = 0 /\ cut k s = vncols v) ->
+  (forall s j, cut j s <= cut (S j) s) ->
+  (forall j, j < k -> match pov j with
+                      | Some m => m = n
+                      | None => col_part_views (cut j) (cut (S j)) vs <> [] \/ n = 0
+                      end) ->
+  match yy with Some v => Forall (fun p => p <> None) v | None => True end ->
+  exists F',
+    tf_cat mnt_cat_run met_cat_run (map (col_part cut vs nm (fun j => if j =? jy then yy else None) pov) (seq 0 k)) 1 = Some F'
+    /\ tf_eq close_grid F' (frame_of vs nm yy ov) = Some true
+    /\ tf_eq close_grid (frame_of vs nm yy ov) F' = Some true.
+Proof. exact (col_partition_roundtrip_model close_grid close_grid_refl). Qed.
+Print Assumptions col_partition_roundtrip_allclose.
+
+
 (* ================================================================== *)
 (* Non-vacuity: the frame of Props/C07.v satisfies every hypothesis; its two-way
    row split and a two-part column split reassemble (computed on the model). *)
@@ -387,6 +476,13 @@ Example ex_perturbed_cell_unequal :
         (frame_of ((st_numerical, VDense 2 1 [[[Some 1%Z]; [Some 2%Z]]; [[None]; [Some 4%Z]]; [[Some 5%Z]; [Some 7%Z]]]) :: tl ex_vs)
                   ex_names ex_y None) = Some false.
 Proof. vm_compute. reflexivity. Qed.
+
+Example ex_perturbed_cell_unequal_allclose :
+  tf_eq close_grid (frame_of ex_vs ex_names ex_y None)
+        (frame_of ((st_numerical, VDense 2 1 [[[Some 1%Z]; [Some 2%Z]]; [[None]; [Some 4%Z]]; [[Some 5%Z]; [Some 7%Z]]]) :: tl ex_vs)
+                  ex_names ex_y None) = Some false
+  /\ tf_eq close_grid (frame_of ex_vs ex_names ex_y None) (frame_of ex_vs ex_names ex_y None) = Some true.
+Proof. vm_compute. split; reflexivity. Qed.
 
 Example ex_lookup : option_map snd (tf_get_col_feat (frame_of ex_vs ex_names ex_y None) "f"%string) = Some st_embedding.
 Proof. vm_compute. reflexivity. Qed.
